@@ -100,3 +100,19 @@ Theorem src64_tie_n_day y m d cd hh mm ss r :
 Proof. exact (s64_n_day_tie y m d cd hh mm ss r). Qed.
 Print Assumptions src64_tie_n_day.
 
+
+From CCTZ Require Import Source64 Source64Proofs Source64MoreProofs.
+(* MORE OF civil_time_detail.h AS CLANG READS IT NOW (Source64.v, regenerated every run; templates read through their
+   instantiations in a probe translation unit, overloads resolved by clang): the civil_time constructors, conversions,
+   operators and next/prev_weekday.  Source64MoreProofs.v ties each to the hand-written model and composes with the
+   refinement theorems: the CURRENT source meets the calendar specification, with no intermediate overflow. *)
+Theorem src64m_construct_meets_spec : forall tag y m d hh mm ss, (tag <= 5)%nat ->
+  int64 y -> int64 m -> int64 d -> int64 hh -> int64 mm -> int64 ss ->
+  int64 (carry_year y m) -> int64 (fy (norm_spec y m d hh mm ss)) ->
+  s64m_construct tag y m d hh mm ss = OK (align_spec tag (norm_spec y m d hh mm ss)).
+Proof. exact Source64MoreProofs.src64m_construct_meets_spec. Qed.
+Print Assumptions src64m_construct_meets_spec.
+Theorem src64m_convert_meets_spec : forall from to f, (from <= 5)%nat -> (to <= 5)%nat -> from <> to ->
+  s64m_convert from to f = OK (align_spec to f).
+Proof. exact Source64MoreProofs.src64m_convert_meets_spec. Qed.
+Print Assumptions src64m_convert_meets_spec.
